@@ -160,6 +160,20 @@ static bool render_check(const char *ref, size_t rl)
     free(buf);
     if (!ok) return false;
     vf_count(CT_TEXT_BYTES, rl);
+    /* whenever to_string returns true the stored text must be the rendering: also at the tightest capacities */
+    for (size_t cap = rl ? rl - 1 : 0; cap <= rl + 1; cap++) {
+        char *blk = (char *) vf_xmalloc(cap ? cap : 1);
+        char *dst = cap ? blk : blk + 1;
+        size_t s2 = cap;
+        cur_cap = (long) cap;
+        vf_count(CT_RUNS, 1);
+        if (binson_parser_to_string(L.p, dst, &s2, true)) {
+            if (cap < rl + 1 || s2 != rl || memcmp(dst, ref, rl + 1))
+                ok = fail("tostring-true-but-wrong", "to_string returned true at capacity %zu (text needs %zu + terminator) but the stored text is not the complete rendering", cap, rl);
+        }
+        free(blk);
+        if (!ok) return false;
+    }
     size_t pl; bool pr;
     char *pt = capture_print(&pl, &pr);
     if (!pr) ok = fail("print-false", "binson_parser_print returned false on a valid document");
@@ -360,8 +374,8 @@ int main(int argc, char **argv)
     vf_main_init(argc, argv, "text", ctr_names);
     P_C13 = !strcmp(vf_g.prop, "C13"); P_C14 = !strcmp(vf_g.prop, "C14");
     if (!P_C13 && !P_C14) vf_die("text decides C13 and C14");
-    N_DOC = vf_g.thorough ? 3 : 2; N_DOC_PLAIN = vf_g.thorough ? 6 : 5;
-    if (P_C13) N_DOC_PLAIN = vf_g.thorough ? 5 : 4;
+    N_DOC = vf_g.thorough ? (P_C14 ? 4 : 3) : 2; N_DOC_PLAIN = vf_g.thorough ? 7 : 5;
+    if (P_C13) N_DOC_PLAIN = vf_g.thorough ? 6 : 4;
     const char *e;
     if ((e = getenv("VERIF_N"))) N_DOC = atoi(e);
     if ((e = getenv("VERIF_NP"))) N_DOC_PLAIN = atoi(e);
